@@ -239,3 +239,31 @@ def _c16_hendrix(d, iv):
                                    f"revenue is {own!r} (own table) / {exact_rev!r} (exact)")
             n += 1
     return dict(status="ok", cls=["hendrix"] + param_class(d) + [size_class(d)], n_obs=n, worst_err=max(worst_cell, 0.0))
+
+
+# ------------------------------------------------------------------ several instances in one process
+def run_with_siblings(case, fn):
+    """Evaluate the main parameterisation and then its siblings (same structure, other cost /
+    distribution parameters) in the SAME process, in order: results must not depend on which
+    instances were built or traced before."""
+    results = []
+    plist = [case["params"]] + list(case.get("siblings", []))
+    for i, params in enumerate(plist):
+        r = fn(load(dict(name=case["name"], params=params)))
+        if i > 0 and r.get("detail"):
+            r["detail"] = f"[instance #{i + 1} of {len(plist)} built in this process, same structure as the earlier ones] " + r["detail"]
+        results.append(r)
+    for st in ("error", "violation", "known"):
+        for r in results:
+            if r["status"] == st:
+                return r
+    out = dict(results[0])
+    out["n_obs"] = sum(r.get("n_obs", 0) for r in results)
+    out["instances"] = len(results)
+    for k in ("worst_dev", "worst_err"):
+        vals = [r[k] for r in results if r.get(k) is not None]
+        if vals:
+            out[k] = max(vals)
+    if "undefined" in out:
+        out["undefined"] = sum(r.get("undefined", 0) for r in results)
+    return out
